@@ -400,6 +400,7 @@ func (f *functionCaller) CallFunction(name string, arguments []interface{}, intr
 	if !ok {
 		return nil, errors.New("unknown function: " + name)
 	}
+	arguments = toGenericSlices(arguments)
 	resolvedArgs, err := entry.resolveArgs(arguments)
 	if err != nil {
 		return nil, err
@@ -410,6 +411,31 @@ func (f *functionCaller) CallFunction(name string, arguments []interface{}, intr
 		resolvedArgs = append(extra, resolvedArgs...)
 	}
 	return entry.handler(resolvedArgs)
+}
+
+// toGenericSlices converts arguments that are typed slices (for instance a
+// []string field of a user-provided struct) to []interface{}, the
+// representation the function handlers expect.
+func toGenericSlices(arguments []interface{}) []interface{} {
+	var converted []interface{}
+	for i, arg := range arguments {
+		if _, ok := arg.([]interface{}); ok || !isSliceType(arg) {
+			continue
+		}
+		if converted == nil {
+			converted = append([]interface{}{}, arguments...)
+		}
+		v := reflect.ValueOf(arg)
+		items := make([]interface{}, v.Len())
+		for j := range items {
+			items[j] = v.Index(j).Interface()
+		}
+		converted[i] = items
+	}
+	if converted == nil {
+		return arguments
+	}
+	return converted
 }
 
 func jpfAbs(arguments []interface{}) (interface{}, error) {
